@@ -6,6 +6,7 @@
 mod expand;
 mod parse;
 mod pattern;
+mod readback;
 mod ser;
 use pattern::Pattern;
 
@@ -62,12 +63,14 @@ fn run_expand(src: &str, want_tokens: bool) -> Outcome {
                 let out = expand::expand(&a);
                 // the expansion must itself be valid Rust (a block expression)
                 let valid = syn::parse2::<syn::Expr>(out.clone()).is_ok();
+                let rb = readback::readback(&out);
                 Outcome::Ok(format!(
-                    "{}\t{}\tvalid={}\t{}",
+                    "{}\t{}\tvalid={}\t{}\t{}",
                     value,
                     tree,
                     valid as u8,
-                    ser::flat_tokens(out)
+                    ser::flat_tokens(out),
+                    rb
                 ))
             } else {
                 Outcome::Ok(format!("{}\t{}", value, tree))
